@@ -163,7 +163,15 @@ def check_attr_value(code, v, asn4):
     if code == 15:
         return check_mp_unreach(v)
     if code == 22:
-        return n >= 5
+        # RFC 6514 section 5: flags(1) tunnel type(1) MPLS label(3) tunnel identifier; ingress replication (6): the
+        # identifier is one IPv4 or IPv6 address, no tunnel information (0): empty
+        if n < 5:
+            return False
+        if v[1] == 6:
+            return n - 5 in (4, 16)
+        if v[1] == 0:
+            return n == 5
+        return True
     if code == 23:
         return check_tunnel_encaps(v)
     return True
